@@ -277,6 +277,19 @@ def buildCache (s : St) : St :=
   let start := if lh < topBlocksCacheSize then 0 else lh - (topBlocksCacheSize - 1)
   s.setMem { s.mem with top := fun h => if start ≤ h ∧ h < lh then s.disk.heights h else none }
 
+/-- `ensureChainConsistency`, first half: a half-added block is removed again -/
+def repairAdd (s : St) : St :=
+  match s.disk.addMark with
+  | some b => ((remove s b).1).write .delAddMark
+  | none => s
+
+/-- `ensureChainConsistency`, second half: a half-removed block is removed completely
+    (the mark is read after the first half has run) -/
+def repairRemove (s : St) : St :=
+  match s.disk.removeMark with
+  | some b => ((remove s b).1).write .delRemoveMark
+  | none => s
+
 /-- Process start on whatever is on disk: `initBlockChain` with
     `ensureChainConsistency`. Memory starts empty. -/
 def restart (s : St) : St × RestartRes :=
@@ -284,12 +297,7 @@ def restart (s : St) : St × RestartRes :=
   | none => (s, .fresh)       -- empty store: genesis creation (outside the model)
   | some cur =>
     let s := s.setMem { latest := cur, top := fun _ => none, verified := [], future := fun _ => none, pending := [] }
-    let s := match s.disk.addMark with
-      | some b => ((remove s b).1).write .delAddMark
-      | none => s
-    let s := match s.disk.removeMark with
-      | some b => ((remove s b).1).write .delRemoveMark
-      | none => s
+    let s := repairRemove (repairAdd s)
     if !(s.disk.roots s.mem.latest.hash) then (s, .panic)
     else (buildCache s, .ok)
 
